@@ -32,6 +32,9 @@ def run(ctx):
     recs = IC.run_spec(ctx, "InterpTextMode2", cfg)
     IC.replay(ctx, recs, "textmode2")
     markup_runs(ctx, rnd)
+    # what another template left behind (a rejected one, one with options of its own) does not reach a text template
+    from .. import isolation
+    ctx.replays += isolation.run(ctx, "text mode")
     ctx.exhaustive = True
     ctx.rule = ("all part sequences up to the bound over 15 literal classes (markup characters, both quotes, braces, LF, "
                 "CR, non-ASCII), '$' runs and brace groups; plus hand-listed markup-looking sources (tags, comments, "
